@@ -58,3 +58,32 @@ Definition spec_parse (one pairs : bool) (w : bytes) : bytes :=
   | None => [x52]
   | Some docs => x4f :: x20 :: join_sp (map (fun v => show (canon v)) docs)
   end.
+
+Require Import Ojg.Json.Writer.
+Open Scope Z_scope.
+
+(* writer options as a bit mask: 1 tab, 2 sort, 4 omitnil, 8 omitempty, 16 html-safe *)
+Definition wopts_of (indent mask : Z) : wopts :=
+  mkW indent (Z.testbit mask 0) (Z.testbit mask 1) (Z.testbit mask 2) (Z.testbit mask 3) (Z.testbit mask 4).
+
+(* numbers in a written text come back as the parser delivers them; for the round-trip check the
+   reference parser keeps literals, so numbers are compared as literal text *)
+Fixpoint lit_numbers (v : jv) : jv :=
+  match v with
+  | JInt z => JBig (format_int z)
+  | JFloat t => JBig t
+  | JArr l => JArr (map lit_numbers l)
+  | JObj m => JObj ((fix go (m : list (bytes * jv)) : list (bytes * jv) :=
+                       match m with [] => [] | (k, x) :: m' => (k, lit_numbers x) :: go m' end) m)
+  | _ => v
+  end.
+
+(* text (hex) | does the reference parser read it back as the expected tree? *)
+Definition model_write (indent mask limit : Z) (v : jv) : bytes :=
+  let o := wopts_of indent mask in
+  let t := write_all o (if limit <? 0 then None else Some limit) v in
+  let ok := match ref_parse true true t with
+            | Some [d] => jv_eqb (canon d) (canon (lit_numbers (expected o v)))
+            | _ => false
+            end in
+  hex_of_bytes t ++ x20 :: (if ok then [x74] else [x66]) ++ x20 :: show (canon (expected o v)).
